@@ -11,13 +11,13 @@ ID = "C13"
 RULE = (
     "generated grammars (profile full) and tests/grammars/reporting.pest, four execution modes; rejected "
     "inputs only: empty, derivations cut short, mutations, random strings, each also embedded after a "
-    "multi-line / non-ASCII prefix and parsed from start_pos = len(prefix), with LF-terminated and "
+    "multi-line / non-ASCII prefix (LF and CR LF line breaks; a CR never on its own) and parsed from start_pos = len(prefix), with LF-terminated and "
     "unterminated last lines, failures at offset 0, at end of input, on an empty line, right after a "
     "trailing newline and inside predicates. Checked inside the worker on the live PestParsingError: "
     "furthest_pos is -1 or within start_pos..len; expected/unexpected rule names are grammar rules or "
     "built-ins; str() and detailed_message() render non-empty without raising; error_context(text, p) and "
-    "the rendered 'line:col' / source line are those of p (closed form of C14; column accepted 0- or "
-    "1-based). Non-trivial: p > start_pos or the text has >= 2 lines; distinct by (grammar, mode, rule, "
+    "the rendered 'line:col' / source line are those of p (closed form of C14; column base calibrated "
+    "from the implementation). Non-trivial: p > start_pos or the text has >= 2 lines; distinct by (grammar, mode, rule, "
     "text, k)."
 )
 ASSUMPTIONS = [
@@ -26,8 +26,9 @@ ASSUMPTIONS = [
 ]
 SIZES = {"quick": 120, "thorough": 3000}
 KEEP = "pestverif.errcheck:check_error"
-PREFIXES = ["", "", "x\n", "é\n\n", "ab\ncd\n", "q\n  ", "\n", "αβγ\nδ"]
-SUFFIXES = ["", "", "\n", "\n\n", "\nzz", "\né"]
+# CR only ever as part of CR LF: there the LF reading and the str.splitlines reading of "line" agree
+PREFIXES = ["", "", "x\n", "é\n\n", "ab\ncd\n", "q\n  ", "\n", "αβγ\nδ", "ab\r\n", "a\r\n\r\ncd\r\n", "x\r\ny\nz\r\n  "]
+SUFFIXES = ["", "", "\n", "\n\n", "\nzz", "\né", "\r\n", "\r\nzz\r\n"]
 
 
 def bucket_of(msg: str) -> str:
